@@ -41,6 +41,6 @@ def run(ctx):
     extra = [{"i": r["i"], "case": {"doc": {"body": [], "value_tokens": r["case"]["toks"]}, "lines": [], "abs": {}, "dev": 0, "receipts": []},
               "obs": r["obs"], "text": r["text"], "fails": vfails[r["i"]]} for r in vrecs if r["i"] in vfails]
     accepted = sum(1 for r in vrecs if r["obs"]["accepted"])
-    return docs.run(ctx, "C01", matchers=MATCHERS, tools_every=3 if ctx.thorough else 4, extra_failures=extra,
+    return docs.run(ctx, "C01", matchers=MATCHERS, tools_every=4 if ctx.thorough else 8, extra_failures=extra,
                     extra_eval=sum(len(r["obs"]["routes"]) for r in vrecs), extra_nontrivial=accepted,
                     extra_cov={"value_token_sequences": len(seqs), "value_token_sequences_accepted": accepted})
